@@ -280,11 +280,13 @@ def run_chunk(exe, args, first, count, timeout):
             break
         # find the last CASE id to resume after it
         ids = re.findall(r"^CASE (\d+)", out, flags=re.M)
-        last = int(ids[-1]) if ids else cur
-        aborted.append({"case": last, "rc": rc, "cmd": " ".join(cmd)})
-        if rc not in (41, 42):
-            # crash or timeout: make sure the output ends with an END line so that parsers stay in step
-            out_all.append("\nEND status=crash rc=%d\n" % rc)
+        if rc in (41, 42):
+            last = int(ids[-1]) if ids else cur       # the aborted case wrote its block before exiting
+        else:
+            # crash or timeout inside a case: its block was never written; it is the case after the last complete one
+            last = (int(ids[-1]) + 1) if ids else cur
+            err = ""
+        aborted.append({"case": last, "rc": rc, "cmd": " ".join(cmd[:-4] + ["--first", str(last), "--cases", "1"])})
         cur = last + 1
     return "".join(out_all), aborted
 
